@@ -311,7 +311,14 @@ class Framer(tasking.Tasker):
                                              human=human,
                                              count=count )
             name = "_".join((self.surname, tag))  # replace name with full name
-            clone = original.clone(name=name, tag=tag, schedule=schedule)
+            try:
+                clone = original.clone(name=name, tag=tag, schedule=schedule)
+            except excepting.CloneError as ex:  # clone name in use or invalid
+                raise excepting.ResolveError(ex.message,
+                                             name=name,
+                                             value=self.name,
+                                             human=human,
+                                             count=count )
             self.auxes[tag] = clone
             clone.lineage = self.lineage + (original.name, )
 
